@@ -75,9 +75,21 @@ def _self_assigned(st_events, upto=None):
     return out
 
 
+_CFG_KEYS = ("self.c", "self.slotted", "self.schedule", "self.reneging", "self.dynamic_classes", "next_event_type", "self.priority_preempt", "isinstance")
+_cfg_cache = {}
+
+
 def _cfg_track(t, f):
-    s = unparse(t)
-    return any(k in s for k in ("self.c", "self.slotted", "self.schedule", "self.reneging", "self.dynamic_classes", "next_event_type", "self.priority_preempt", "isinstance"))
+    k = id(t)
+    if k not in _cfg_cache:
+        s = unparse(t)
+        hit = any(key in s for key in _CFG_KEYS)
+        if not hit and any(isinstance(x, ast.Name) for x in ast.walk(t)):
+            # a test on a local that names a configuration attribute (`kind = self.schedule.schedule_type ... if kind == 'schedule'`)
+            s2 = unparse(rules.inline_locals(f.func, t))
+            hit = any(key in s2 for key in _CFG_KEYS)
+        _cfg_cache[k] = (t, hit)        # (the node is kept alive so that its id is not reused)
+    return _cfg_cache[k][1]
 
 
 def _extra_facts(events, v):
